@@ -112,6 +112,10 @@ func getEigenvector(eigenvector Vector, eigenvalue ConstScalar, h, u Matrix, b V
     backSubstitution.Run(h.Slice(0,k,0,k), b.Slice(0,k), &inSitu)
   }
   eigenvector.At(k).SetFloat64(1.0)
+  // the buffer may hold the eigenvectors of a previous call
+  for i := k+1; i < eigenvector.Dim(); i++ {
+    eigenvector.At(i).SetFloat64(0.0)
+  }
   // add eigenvalue to diagonal
   for i := 0; i < k; i++ {
     h.At(i,i).Add(h.ConstAt(i,i), eigenvalue)
